@@ -206,4 +206,6 @@ func VerifC08Process(v *verifrt.T) {
 	v.Assert(asock.closed, "C08.process.socket-closed")
 	v.Assert(e.svc.connections == 1, "C08.process.connection-counted-out-once")
 	v.Assert(e.trie.VerifNodes() == 4, "C08.process.index-back-to-baseline")
+	v.Observe("acks", uint64(len(asock.writes)))
+	v.Observe("unread", uint64(len(asock.in)))
 }
